@@ -51,6 +51,7 @@ struct Dgram { std::string data; Addr src; int resp_id = -1; };
 
 struct VFd {
   int fd = -1;
+  int gen = 0;                // unique per socket object (descriptor numbers may be reused in fd_reuse mode)
   FdKind kind = FD_NONE;
   bool open = false;
   bool ever_open = false;
@@ -112,6 +113,7 @@ struct Flight {
   Addr src;
   int resp_id = -1;
   bool done = false;
+  int gen = 0;                // generation of the target descriptor when the packet was sent
 };
 
 // A transmission observed at a virtual server (one UDP datagram or one TCP frame).
@@ -218,6 +220,9 @@ struct World {
   // descriptors
   std::map<int, VFd> fds;
   int next_fd = 300;
+  bool fd_reuse = false;       // POSIX lowest-free-number allocation (default: numbers are never reused, which keeps descriptor identity trivial for the C10 oracles)
+  int gen_ctr = 0;
+  std::vector<VFd> graveyard;  // closed descriptors whose number has been handed out again
   std::vector<Fault> faults;
   int fault_ids = 0;
   std::map<int, int> fault_armed, fault_fired;  // per class
